@@ -330,7 +330,126 @@ func rebatch(r *sim.Rng, hist [][]hop) ([][]hop, []bool) {
 	return out, par
 }
 
+// storeHistories drives the real Store (Set/Delete, speculative Root() followed by Reset() as proposal validation does,
+// Commit) over several blocks; after every commit the persisted tree is dumped and must equal the model tree of the COMMITTED
+// batches only, with every stored hash recomputed - a speculative, discarded computation must leave no trace.
+func storeHistories(r *sim.Rng, n int, cw *sim.CaseWriter, outDir string) {
+	helper, e := store.VerifNewSMT(160, lib.NewNullLogger())
+	if e != nil {
+		panic(e)
+	}
+	defer helper.Close()
+	mk := func(i uint64) []byte { return lib.JoinLenPrefix([]byte{1}, []byte(fmt.Sprintf("acct-%06d", i))) }
+	for c := 0; c < n; c++ {
+		sti, err := store.NewStoreInMemory(lib.NewNullLogger())
+		if err != nil {
+			panic(err)
+		}
+		s := sti.(*store.Store)
+		var committed [][]hop
+		live := map[string]bool{}
+		var pool []uint64
+		nb := 2 + r.Intn(4)
+		bad := false
+		for b := 0; b < nb && !bad; b++ {
+			write := func(count int, record bool) []hop {
+				var batch []hop
+				used := map[uint64]bool{}
+				for len(batch) < count {
+					var id uint64
+					if len(pool) > 0 && r.Chance(40) {
+						id = pool[r.Intn(len(pool))]
+					} else {
+						id = r.U64() % 100000
+					}
+					if used[id] {
+						continue
+					}
+					used[id] = true
+					raw := mk(id)
+					h := hop{raw: raw, bits: helper.HashedKeyBits(raw)}
+					if live[h.bits] && r.Chance(40) {
+						h.del = true
+						if err := s.Delete(raw); err != nil {
+							panic(err)
+						}
+					} else {
+						h.val = r.Bytes(1 + r.Intn(6))
+						if err := s.Set(raw, h.val); err != nil {
+							panic(err)
+						}
+					}
+					batch = append(batch, h)
+					if record {
+						if h.del {
+							delete(live, h.bits)
+						} else {
+							live[h.bits] = true
+							pool = append(pool, id)
+						}
+					}
+				}
+				return batch
+			}
+			size := func() int {
+				if r.Chance(50) {
+					return 1 + r.Intn(12)
+				}
+				return 16 + r.Intn(30)
+			}
+			// speculative execution(s) that are discarded: proposal validation computes a root and resets
+			for k := r.Intn(3); k > 0; k-- {
+				write(size(), false)
+				if _, err := s.Root(); err != nil {
+					panic(err)
+				}
+				s.Reset()
+				st.Ops["speculative-root-then-reset"]++
+			}
+			batch := write(size(), true)
+			root, err := s.Commit()
+			if err != nil {
+				panic(err)
+			}
+			committed = append(committed, batch)
+			st.Batches[sizeClass(len(batch))]++
+			nodes, err := store.VerifStoreTreeDump(s)
+			if err != nil {
+				panic(err)
+			}
+			par := make([]bool, len(committed))
+			if msg := checkHashes(nodes, root); msg != "" {
+				sim.Direct(outDir, map[string]any{"finding": "store-stale-hash", "kind": "stale-hash", "detail": msg, "history": histJSON(committed, par)})
+				bad = true
+			}
+			if b == nb-1 || r.Chance(30) {
+				var bs []string
+				for _, bb := range committed {
+					var os []string
+					for _, h := range bb {
+						if h.del {
+							os = append(os, fmt.Sprintf("ODel (kb 160 %s)", bitsToN(h.bits)))
+						} else {
+							os = append(os, fmt.Sprintf("OSet (kb 160 %s) 0x%s%%N", bitsToN(h.bits), sim.Hex(crypto.Hash(h.val))))
+						}
+					}
+					bs = append(bs, sim.CoqList(os))
+				}
+				pos := 0
+				obs := treeLit(nodes, &pos, 160)
+				lit := fmt.Sprintf("mkTrie 160 0%%N 0x%s%%N %s %s", strings.Repeat("ff", 20), sim.CoqList(bs), obs)
+				cw.Add(lit, map[string]any{"kind": "store-history", "width": 160, "blocks": len(committed), "history": histJSON(committed, par)})
+				st.Cases++
+				st.ByWidth["160-store"]++
+				st.Distinct++
+			}
+		}
+		s.Close()
+	}
+}
+
 func main() {
+	nStore := flag.Int("store", 25, "multi-block histories on the real Store (speculative Root()+Reset() between blocks)")
 	n8 := flag.Int("w8", 120, "histories with 8-bit keys")
 	n16 := flag.Int("w16", 120, "histories with 16-bit keys")
 	n160 := flag.Int("w160", 40, "histories with 160-bit keys")
@@ -412,6 +531,7 @@ func main() {
 		}
 		v.Close()
 	}
+	storeHistories(r.Fork(), *nStore, cw, *outDir)
 	cw.Close(st)
 	fmt.Printf("c08: %d histories (%d distinct non-trivial), %d parent hashes rechecked, %d rebatched comparisons\n", st.Cases, st.Distinct, st.HashNodes, st.Rebatched)
 }
